@@ -7,6 +7,7 @@ import RapidProofs.Shrink
 import RapidProofs.PassRefine
 import RapidProofs.PruneAssert
 import RapidModel.Generated.CallOrders
+import RapidProofs.PruneCustomAssert
 
 namespace Rapid.C05
 
@@ -76,6 +77,14 @@ theorem shrinker_result_for_generator_properties (e : Env) (hrt : RTPos e) (p : 
     ∃ s', (shrinkScript F).run p s = .ok ((), s') ∧ sle s'.rc.data s.rc.data ∧ tbKey s'.err = tbKey s.err ∧
       FromRun p ⟨s'.rc.data, s'.err⟩ :=
   concrete_shrinker_result p (pruneOK_of_propProg e hrt hp) F s hr h
+
+/-- the same for property functions over generators with quiet `Custom` functions nested to any
+    depth (`PropProgC`, RapidProofs/PruneCustom.lean) -/
+theorem shrinker_result_for_custom_generator_properties (e : Env) (hrt : RTPos e) (d : Nat) (p : Prog)
+    (hp : PropProgC e d p) (F : Nat) (s : SS) (hr : RecWF s.rc) (h : FromRun p s.shr) :
+    ∃ s', (shrinkScript F).run p s = .ok ((), s') ∧ sle s'.rc.data s.rc.data ∧ tbKey s'.err = tbKey s.err ∧
+      FromRun p ⟨s'.rc.data, s'.err⟩ :=
+  concrete_shrinker_result p (pruneOK_of_propProgC e hrt hp) F s hr h
 
 /-- `prune()` of the recording of ANY run of ANY program keeps exactly the words the model calls
     `kept` (everything except finished discarded groups) … -/
